@@ -16,10 +16,12 @@ Record fopts := mkfopts { o_depth : N (* -D, default 1024 *); o_in : list N (* -
 (* the filter part of one func_stack[] slot *)
 Record fframe := mkff { ff_filtered : bool; ff_notrace : bool; ff_norecord : bool; ff_orig : N }.
 (* task->filter *)
-Record fstate := mkfs { f_in : N; f_out : N; f_depth : N; f_frames : list fframe }.
+Record fstate := mkfs { f_in : N; f_out : N; f_depth : N; f_frames : list fframe;
+                        f_pend : bool (* display_depth_set is false: a LOST marker was seen and no call has been
+                                         shown since (a filtered-out call leaves it false) *) }.
 
 Definition ff0 (o : fopts) : fframe := mkff false false false (o_depth o).    (* setup_task_handle *)
-Definition fstate0 (o : fopts) : fstate := mkfs 0 0 (o_depth o) [].
+Definition fstate0 (o : fopts) : fstate := mkfs 0 0 (o_depth o) [] false.
 
 Definition ffget (o : fopts) (fr : list fframe) (i : N) : fframe := nth (N.to_nat i) fr (ff0 o).
 Fixpoint ffupd (d : fframe) (fr : list fframe) (n : nat) (x : fframe) : list fframe :=
@@ -37,7 +39,7 @@ Definition inb (a : N) (l : list N) : bool := existsb (N.eqb a) l.
    returns the new filter state, whether the call is shown (return 0), and whether the code got
    past the out_count test (the fork fix-up sits right behind it) *)
 Definition entry_f (o : fopts) (fs : fstate) (idx : N) (a : N) : fstate * bool * bool :=
-  let put (fi fo fd : N) (x : fframe) := mkfs fi fo fd (ffset o (f_frames fs) idx x) in
+  let put (fi fo fd : N) (x : fframe) := mkfs fi fo fd (ffset o (f_frames fs) idx x) (f_pend fs) in
   let orig := f_depth fs in
   if 0 <? f_out fs then (put (f_in fs) (f_out fs) (f_depth fs) (mkff false false true orig), false, false)
   else if inb a (o_out o) then
@@ -59,7 +61,7 @@ Definition exit_f (o : fopts) (fs : fstate) (idx : N) : fstate :=
   mkfs (if ff_filtered x then N.pred (f_in fs) else f_in fs)
        (if negb (ff_filtered x) && ff_notrace x then N.pred (f_out fs) else f_out fs)
        (ff_orig x)
-       (ffset o (f_frames fs) idx (mkff false false false (ff_orig x))).
+       (ffset o (f_frames fs) idx (mkff false false false (ff_orig x))) (f_pend fs).
 
 Definition fsget (o : fopts) (F : list fstate) (i : nat) : fstate := nth i F (fstate0 o).
 Fixpoint fsupd (F : list fstate) (i : nat) (x : fstate) : list fstate :=
@@ -76,13 +78,17 @@ Definition fstep (o : fopts) (forks : list N) (tasks : list task) (g : gstate) (
   let g1 := consume tasks g i r in
   let ts1 := stamp (tget g1 i) (r_time r) in
   let fs := fsget o F i in
+  let pend := f_pend fs in
+  let unpend (x : fstate) := mkfs (f_in x) (f_out x) (f_depth x) (f_frames x) false in
   match r_type r with
+  | LOST => (None, g1, fsupd F i (mkfs (f_in fs) (f_out fs) (f_depth fs) (f_frames fs) true))
   | ENTRY =>
       let '(fs', shown, past) := entry_f o fs (t_sc ts1 - 1) (r_addr r) in
-      let ts2 := if past && inb (r_addr r) forks then set_fork ts1 (t_dd ts1 + 1) else ts1 in
+      let depth := if pend then t_sc ts1 - 1 else t_dd ts1 in
+      let ts2 := if past && inb (r_addr r) forks then set_fork ts1 (depth + 1) else ts1 in
       if shown
-      then (Some (mkev true i (t_dd ts2) (r_addr r) 0 (r_time r)),
-            tset g1 i (set_dd ts2 (t_dd ts2 + 1)), fsupd F i fs')        (* fstack_update(ENTRY) *)
+      then (Some (mkev true i depth (r_addr r) 0 (r_time r)),
+            tset g1 i (set_dd ts2 (depth + 1)), fsupd F i (unpend fs'))  (* fstack_update(ENTRY) *)
       else (None, tset g1 i ts2, fsupd F i fs')
   | EXIT =>
       let x := ffget o (f_frames fs) (t_sc ts1) in
@@ -90,9 +96,9 @@ Definition fstep (o : fopts) (forks : list N) (tasks : list task) (g : gstate) (
       if ff_norecord x
       then (None, tset g1 i ts1, fsupd F i fs')
       else
-        let depth := N.pred (t_dd ts1) in                                 (* fstack_update(EXIT) *)
+        let depth := if pend then t_sc ts1 else N.pred (t_dd ts1) in     (* fstack_update(EXIT) *)
         (Some (mkev false i depth (r_addr r) (f_time (fget (t_stack ts1) (t_sc ts1))) (r_time r)),
-         tset g1 i (set_dd ts1 depth), fsupd F i fs')
+         tset g1 i (set_dd ts1 depth), fsupd F i (unpend fs'))
   end.
 
 (* `uftrace replay --no-merge` with the options: every shown call is printed *)
